@@ -223,6 +223,9 @@ def run(ctx):
     #     identifiers (symbolic text) - from the MIR of the accessors
     acc_bad = unit_accessor_obligation(ctx, prog)
     for w in acc_bad: findings.append(w)
+    # (5) the unit survives the Zinc and Hayson codecs at magnitudes where a writer might change notation: the real encoders
+    #     and decoders from MIR on Number{magnitude, unit} for a handful of units (seed-rotated) x six magnitudes
+    for w in codec_survival_obligation(ctx, prog, names, units): findings.append(w)
     single = [u for u in names if len(units[u]) == 1]
     ctx.cov['single_identifier_units'] = len(single)
     ctx.cov['queries'] += len(queries); ctx.cov['solver_s'] = round(t_sol, 2)
@@ -265,6 +268,56 @@ def run(ctx):
     ctx.obligation('unit-table-obligations', 'held' if not ctx.violations else 'violated', obligations=len(queries))
     if not ctx.quick():
         cross_check_cvc5(ctx, asked)
+
+
+MAGNITUDES = [1.5, 1e7, 2.5e10, 5e-4, -3.0, 0.0]
+
+
+def codec_survival_obligation(ctx, prog, names, units):
+    from vlib import sym as vsym
+    from mirsym.hv import HV, sym_eq
+    from mirsym import zinc as mzinc
+    from props import zenc_common as zc, hayson_common as hc
+    byname = {units[u][0]: u for u in names if units[u]}
+    pick = [byname[n] for n in ('percent', 'kilowatt_hour', 'meter', 'us_dollar', 'fahrenheit') if n in byname] + [names[(ctx.seed * 31 + 7 * q) % len(names)] for q in range(3)]
+    pick = [units[u][0] for u in dict.fromkeys(pick) if units.get(u)]
+    bad = []; cases = []
+    for u in pick:
+        for mag in MAGNITUDES:
+            for codec in ('zinc', 'hayson'):
+                ex = vsym.make_exec(prog)
+                def fn(e, u=u, mag=mag, codec=codec):
+                    h = HV(e); v = h.num(mag, u)
+                    if codec == 'zinc':
+                        r, sink = zc.encode(e, v)
+                        if r.variant != 0: return ('enc-err', None)
+                        d, _ = mzinc.parse_value(e, list(sink.items))
+                    else:
+                        k, tree = hc.encode(e, v)
+                        if k != 'ok': return ('enc-err', None)
+                        d = hc.decode(e, tree, h.ty('Value'))
+                    if d.variant != 0: return ('dec-err', None)
+                    eq = sym_eq(e, v, d.fields[0])
+                    return ('same' if eq is True else 'differs', None)
+                def post(e, r): return r.value[0] if r.kind == 'ok' else r.kind + ':' + str(r.detail)[:60]
+                res, left = ex.explore(fn, post=post)
+                ctx.cov['states'] += len(res); ctx.cov['queries'] += ex.stats['checks']; ctx.add_functions(ex.stats['bodies'])
+                for r in res:
+                    if r == 'same': continue
+                    if r.startswith('unsupported'): ctx.note_inconclusive('codec survival %s %s %s: %s' % (u, mag, codec, r)); continue
+                    bad.append(('codec', u, mag, codec, r))
+    out = []
+    if bad:
+        # replay natively
+        import struct
+        f2b = lambda x: '%016x' % struct.unpack('<Q', struct.pack('<d', x))[0]
+        res = native.run_cases(native.build(), [{'api': 'zinc_roundtrip' if b[3] == 'zinc' else 'json_roundtrip', 'v': {'t': 'num', 'bits': f2b(b[2]), 'unit': b[1].encode().hex()}} for b in bad])
+        for b, r in zip(bad, res):
+            if r.get('same') is True: ctx.note_inconclusive('codec survival counterexample does not reproduce natively: %s' % (b,)); continue
+            ctx.cov['traces_validated_against_impl'] += 1
+            ctx.report('units.codec:%s:%s' % (b[3], b[4]), 'Number %r with unit %s does not survive the %s codec (%s); native: %s' % (b[2], b[1], b[3], b[4], str(r)[:200]),
+                       case={'api': 'zinc_roundtrip' if b[3] == 'zinc' else 'json_roundtrip', 'v': {'t': 'num', 'bits': f2b(b[2]), 'unit': b[1].encode().hex()}})
+    return out
 
 
 def unit_accessor_obligation(ctx, prog):
